@@ -429,8 +429,26 @@ func (st *State) builtin(fr *Frame, in ssa.CallInstruction, b *ssa.Builtin, c *s
 	case "copy":
 		dst := args[0].(*SliceV)
 		n := st.fresh("copied", SInt)
-		st.assume(And(Ge(n, IntLit(0)), Le(n, dst.Len)))
-		st.havoc([]string{"E:" + shortenType(typeKey(dst.Elem)) + ":*", "E:" + shortenType(typeKey(dst.Elem)) + ":"}, nil)
+		src, ok := args[1].(*SliceV)
+		if !ok {
+			st.assume(And(Ge(n, IntLit(0)), Le(n, dst.Len)))
+			st.havoc([]string{"E:" + shortenType(typeKey(dst.Elem)) + ":*", "E:" + shortenType(typeKey(dst.Elem)) + ":"}, nil)
+			return n
+		}
+		// n = min(len(dst), len(src)); dst[i] = src[i] for i < n, the rest of dst is unchanged
+		st.assume(Eq(n, Ite(Le(dst.Len, src.Len), dst.Len, src.Len)))
+		for _, l := range st.e.leaves(dst.Elem) {
+			key := "E|" + typeKey(dst.Elem) + "|" + l.Path
+			sArr := ArrS(SInt, ArrS(SInt, l.Sort))
+			arr := st.heapGet(st.heap, key, sArr, l.IsRef)
+			oldIn := Select(arr, dst.Base)
+			srcIn := Select(arr, src.Base)
+			inner := st.fresh("copydst", ArrS(SInt, l.Sort))
+			j := st.qv("j")
+			st.assume(Forall([]*Term{j}, Eq(Select(inner, j), Ite(And(Ge(j, dst.Off), Lt(j, Add(dst.Off, n))), Select(srcIn, Add(src.Off, Sub(j, dst.Off))), Select(oldIn, j))), Select(inner, j)))
+			st.heapSetInner(key, arr, dst.Base, inner)
+		}
+		delete(st.resultSlices, dst.Base.S)
 		return n
 	case "min", "max":
 		x, y := st.scalar(args[0]), st.scalar(args[1])
